@@ -530,6 +530,10 @@ impl RustIrDatabase<ChalkIr> for Program {
                     id_a == id_b
                 }
                 (TyKind::Foreign(id_a), TyKind::Foreign(id_b)) => id_a == id_b,
+                (TyKind::Function(fn_a), TyKind::Function(fn_b)) => {
+                    fn_a.sig == fn_b.sig
+                        && fn_a.substitution.0.len(interner) == fn_b.substitution.0.len(interner)
+                }
                 (TyKind::Error, TyKind::Error) => true,
                 (_, _) => false,
             }
